@@ -18,6 +18,7 @@ def run(F, R, tier):
     r01_10(duke, R, S)
     r01_11(duke, R, S)
     r01_12(duke, R, S)
+    r01_13(duke, R)
     r01_9(F, R)
     return ("A5 tables against JVMS: class_constants (opcodes, pool tags, handle kinds, atype, attribute names, magic); the second-pass decode table for "
             "all 256 opcode bytes and all 256 wide sub-opcodes (variant, implied index, operand bytes, operand kinds) and its agreement with the "
@@ -909,3 +910,56 @@ def r01_9(F, R):
                      "interval analysis over the monomorphic MIR (e.g. `code_length as u16` after the `> u16::MAX` check), or is a reviewed intended "
                      "truncation (Java narrowing of annotation constants)",
                      lambda f: f.path.startswith("duke::class_reader") or "ClassRead" in f.path, 8)
+
+
+# ------------------------------------------------------------------------------------ R01.13
+def _loop_exits(n):
+    """`continue` / `break` that leave an iteration of the loop whose body is `n` (those of inner loops and closures are their own)."""
+    out = []
+    stack = [(n, False)]
+    while stack:
+        x, inner = stack.pop()
+        if not isinstance(x, dict) or x.get("k") == "closure":
+            continue
+        k = x.get("k")
+        if k in ("break", "continue") and not inner:
+            out.append(x)
+        sub = inner or k in ("for", "loop", "while")
+        for ch in H.children(x):
+            stack.append((ch, sub))
+    return out
+
+
+def r01_13(duke, R):
+    R.rule("R01.13", "every counted loop of the class reader (`for _ in 0..count` with the count taken from the file) delivers one element per "
+                     "iteration: no `continue` / `break` in its body, and every push into the table it fills is unconditional (an entry the file "
+                     "states - e.g. a zero-length local-variable range - must not be dropped silently)")
+    n = 0
+    seen = {}
+    for b in duke.bodies:
+        if not b["key"].startswith("duke::class_reader"):
+            continue
+        for lp in H.walk(b["body"]):
+            if lp.get("k") != "for":
+                continue
+            it = H.peel(lp["iter"])
+            if it.get("k") != "struct" or not (it.get("adt") or "").startswith("core::ops::range::Range"):
+                continue
+            end = [f for f in it.get("fields", []) if f["name"] == "end"]
+            what = H.render(end[0]["e"])[:48] if end else "?"
+            base = "%s:0..%s" % (b.get("name") or b["key"].split("::")[-1], what)
+            seen[base] = seen.get(base, 0) + 1
+            key = base if seen[base] == 1 else "%s#%d" % (base, seen[base])
+            ex = _loop_exits(lp["body"])
+            R.inst("R01.13", "loop:%s:every-iteration-delivers" % key, not ex, sp=lp.get("sp"), expect="no continue/break",
+                   got=[("%s at %s" % (x["k"], x.get("sp"))) for x in ex])
+            n += 1
+            inner = [x for x in H.walk(lp["body"]) if x.get("k") in ("for", "loop", "while")]
+            for p in H.walk(lp["body"]):
+                if p.get("k") == "mcall" and p["name"] in ("push", "push_back", "insert") and H.local_of(p["recv"]):
+                    if any(any(y is p for y in H.walk(i["body"])) for i in inner):
+                        continue
+                    conds = [(k, H.render(c)[:60] if k != "arm" else "match arm", pp) for k, c, pp in H.path_conditions(lp["body"], p)]
+                    R.inst("R01.13", "loop:%s:%s.%s-unconditional" % (key, H.local_of(p["recv"])[1], p["name"]), not conds, sp=p.get("sp"),
+                           expect="the element read in this iteration is always stored", got=conds)
+    R.floor("R01.13", 28 + 9)
